@@ -174,5 +174,65 @@ def DenAny (ρ : Val) : List Expr → Nat → Prop
   | e :: tl, x => Den ρ e x ∨ DenAny ρ tl x
 end
 
+/-! ## hypotheses of the evaluation theorem (C01 `eval_sound`) -/
+
+/-- operators whose meaning depends on the declared signedness -/
+def signDep : Op → Bool
+  | .lt | .le | .ge | .gt | .mul2 | .div | .mod => true
+  | _ => false
+
+/-- `SfIs s e`: the constant `e` evaluates to is read by its parent with signedness `s` (the flag an
+    evaluation result carries: the node's own `sf`; a constant leaf whose top bit is clear reads the same
+    either way; a conditional hands over the flag of the selected branch). -/
+def SfIs (s : Bool) : Expr → Prop
+  | cst v sz f => f = s ∨ v.testBit (sz - 1) = false
+  | reg _ _ f => f = s
+  | ext _ _ f => f = s
+  | slc _ _ _ f _ _ => f = s
+  | comp _ f _ => f = s
+  | tst _ l r _ _ => SfIs s l ∧ SfIs s r
+  | op _ _ _ _ f _ => f = s
+  | uop _ _ _ f _ => f = s
+  | _ => False
+
+mutual
+/-- `SignOK e`: every ordered comparison, widening multiply, division and modulo has operands whose
+    signedness is declared unambiguously: both are read with the signedness `l.sf` the node is given. -/
+def SignOK : Expr → Prop
+  | slc x _ _ _ _ _ => SignOK x
+  | comp _ _ ps => SignOKParts ps
+  | tst t l r _ _ => SignOK t ∧ SignOK l ∧ SignOK r
+  | op o l r _ _ _ => SignOK l ∧ SignOK r ∧ (signDep o = true → SfIs l.sf l ∧ SfIs l.sf r)
+  | uop _ r _ _ _ => SignOK r
+  | _ => True
+def SignOKParts : List Part → Prop
+  | [] => True
+  | (_, _, e) :: tl => SignOK e ∧ SignOKParts tl
+end
+
+mutual
+/-- `Ground env e`: `e` is built from constants and registers that `env` binds to constants (a total constant
+    valuation of `e`), with slices, compositions, conditionals and operators — no `top`, `vec`, `mem`, `ptr`. -/
+def Ground (env : Env) : Expr → Prop
+  | cst .. => True
+  | reg n s _ => ∃ v f, env.lookup n s = some (cst v s f) ∧ v < 2 ^ s
+  | ext n s _ => ∃ v f, env.lookup ("@" ++ n) s = some (cst v s f) ∧ v < 2 ^ s
+  | slc x _ _ _ _ _ => Ground env x
+  | comp _ _ ps => GroundParts env ps
+  | tst t l r _ _ => Ground env t ∧ Ground env l ∧ Ground env r
+  | op _ l r _ _ _ => Ground env l ∧ Ground env r
+  | uop _ r _ _ _ => Ground env r
+  | _ => False
+def GroundParts (env : Env) : List Part → Prop
+  | [] => True
+  | (_, _, e) :: tl => Ground env e ∧ GroundParts env tl
+end
+
+/-- the valuation of the registers an environment of constants stands for -/
+def envVal (env : Env) : Val := fun n s =>
+  match env.lookup n s with
+  | some (cst v _ _) => v
+  | _ => 0
+
 end Expr
 end Amoco
